@@ -243,7 +243,7 @@ STATES = {
     "NO_OP_alias": ["alias"],
     "SELECT_withColumn": ["withColumn_new"],
     "FROM_dropna": ["dropna"],
-    "WHERE_after_select": ["select_same3", "where"],
+    "WHERE_after_select": ["select_mixed3", "where"],
     "HINT": ["hint_broadcast"],
     "HINT_join": ["hint_broadcast", "join_base"],
     "HINT_where": ["hint_broadcast", "where"],
@@ -744,7 +744,7 @@ def _worker(args):
 
 # ------------------------------------------------------------------------------------------------------------
 QUICK_STATES = ["INIT", "WHERE", "SELECT", "SELECT_mixed", "ORDER_BY", "LIMIT", "FROM_join", "SELECT_groupagg", "NO_OP_alias",
-                "HINT", "HINT_join", "REPARTITION_where"]
+                "WHERE_after_select", "HINT", "HINT_join", "REPARTITION_where"]
 CORE_STATES = ["WHERE", "SELECT", "FROM_join", "HINT_join"]
 
 
